@@ -174,6 +174,17 @@ DEFAULT_QUERY_LANGUAGE = 'WQL'
 __all__ = ['WBEMSubscriptionManager']
 
 
+def _path_wo_host(path):
+    """
+    Return a copy of an instance path with its host removed, for comparing
+    instance paths within one WBEM server (where paths specified by the user
+    or returned by the server may or may not have the host set).
+    """
+    ret = path.copy()
+    ret.host = None
+    return ret
+
+
 def validate_persistence_type(pt):
     """
     Validate persistence type parameter pt as string possible
@@ -819,7 +830,7 @@ class WBEMSubscriptionManager:
         # We iterate backwards because we change the list
         for i in range(len(inst_list) - 1, -1, -1):
             inst = inst_list[i]
-            if inst.path == dest_path:
+            if _path_wo_host(inst.path) == _path_wo_host(dest_path):
                 del inst_list[i]
                 # continue loop to find any possible duplicate entries
 
@@ -1093,7 +1104,7 @@ class WBEMSubscriptionManager:
         # We iterate backwards because we change the list
         for i in range(len(inst_list) - 1, -1, -1):
             inst = inst_list[i]
-            if inst.path == filter_path:
+            if _path_wo_host(inst.path) == _path_wo_host(filter_path):
                 del inst_list[i]
                 # continue loop to find any possible duplicate entries
 
@@ -1191,11 +1202,13 @@ class WBEMSubscriptionManager:
         # Enforce that a permanent subscription is not created on an owned
         # filter or on an owned destination.
         if not owned:
-            if filter_path in owned_filter_paths:
+            if _path_wo_host(filter_path) in \
+                    [_path_wo_host(p) for p in owned_filter_paths]:
                 raise ValueError(
                     _format("Permanent subscription cannot be created on "
                             "owned filter: {0!A}", filter_path))
-            if dest_path in owned_destination_paths:
+            if _path_wo_host(dest_path) in \
+                    [_path_wo_host(p) for p in owned_destination_paths]:
                 raise ValueError(
                     _format("Permanent subscription cannot be created on "
                             "owned listener destination: {0!A}", dest_path))
@@ -1308,7 +1321,7 @@ class WBEMSubscriptionManager:
         # We iterate backwards because we change the list
         for i in range(len(inst_list) - 1, -1, -1):
             inst = inst_list[i]
-            if inst.path == sub_path:
+            if _path_wo_host(inst.path) == _path_wo_host(sub_path):
                 del inst_list[i]
                 # continue loop to find any possible duplicate entries
 
